@@ -38,12 +38,10 @@ def Listed (s : State) (u p : Nat) : Prop := p ∈ (getW u s).1.pids
     the daemon hangs (nothing is logged any more); a `before_signal` hook of the watcher was
     consulted (it can veto any signal but SIGKILL); the watcher does not list the pid
     (`send_signal` returns silently); the process is already gone (with `stop_children`,
-    `send_signal_process` swallows `NoSuchProcess` for the whole group); or the attempt is in the log
-    marked as refused by the kernel (`via = "!"`: EPERM, the daemon is not permitted to signal the
-    worker — `kill_process` then ends with `AccessDenied`, it does not go on waiting). -/
+    `send_signal_process` swallows `NoSuchProcess` for the whole group). -/
 def Began (s : State) (u p sig : Nat) : Prop :=
   (∃ st, Obs.sig p sig st "" ∈ s.log) ∨ s.blocked = true ∨ (sig ≠ 9 ∧ HookCalled s u "before_signal")
-    ∨ ¬ Listed s u p ∨ s.k.GoneIn p ∨ (∃ st, Obs.sig p sig st "!" ∈ s.log)
+    ∨ ¬ Listed s u p ∨ s.k.GoneIn p
 
 /-- the pid counter and every pid of the process table are positive (the daemon is "pid 0" only in
     the `ppid` field) -/
@@ -246,13 +244,12 @@ theorem Ext.trans {a b c : State} (h1 : Ext a b) (h2 : Ext b c) : Ext a c where
 
 theorem Began.mono {s s' : State} (e : Ext0 s s') {u p sig : Nat} (ho : HasObj s p) (h : Began s u p sig) :
     Began s' u p sig := by
-  rcases h with ⟨st, h⟩ | h | ⟨h1, h2⟩ | h | h | ⟨st, h⟩
+  rcases h with ⟨st, h⟩ | h | ⟨h1, h2⟩ | h | h
   · exact Or.inl ⟨st, e.log _ h⟩
   · exact Or.inr (Or.inl (e.blocked h))
   · exact Or.inr (Or.inr (Or.inl ⟨h1, e.hook _ _ h2⟩))
   · exact Or.inr (Or.inr (Or.inr (Or.inl (e.unl u p ho h))))
-  · exact Or.inr (Or.inr (Or.inr (Or.inr (Or.inl (e.gone p h)))))
-  · exact Or.inr (Or.inr (Or.inr (Or.inr (Or.inr ⟨st, e.log _ h⟩))))
+  · exact Or.inr (Or.inr (Or.inr (Or.inr (e.gone p h))))
 
 /-- a kill loop's knowledge survives an extension in which its `stopping` flag is still set -/
 theorem LoopOk.mono0 {s s' : State} (e : Ext0 s s') {u p sig i polls : Nat} (h : LoopOk s u p sig i polls)
